@@ -86,6 +86,34 @@ Section MemDestNoFlags.
     - rewrite ST. split; reflexivity.
     - exact ST.
   Qed.
+
+  (* the moffs encoding (A0..A3: accumulator and an absolute address): the same helper call *)
+  Theorem mov_moffs64_rax_exact :
+    i_code i = C_Mov_moffs64_RAX ->
+    match load 8 (ea i s) s with
+    | Some _ =>                       (* destination readable: the specification's store *)
+        match isa_exec (SMov 64) i s with
+        | IDone s' u => instr_mov_moffs64_rax c i s = (Ok tt, s') /\ u = 0
+        | IFault FMem => exists e, instr_mov_moffs64_rax c i s = (Err e, s)
+        | IFault _ => False
+        end
+    | None =>                         (* not readable: the step fails, whatever the specification does *)
+        exists e, instr_mov_moffs64_rax c i s = (Err e, s)
+    end.
+  Proof.
+    intros Ec. unfold instr_mov_moffs64_rax. rewrite Ec.
+    rewrite (bind_ok _ _ _ _ _ (dbg_code_ok c s _ eq_refl)).
+    pose proof (calc_rm_r_64_mem (fun _ v_s => Ok v_s) FLAGS_UNAFFECTED 0) as SH.
+    destruct (load 8 (ea i s) s) as [d|]; [|exact SH]. destruct SH as [Hd SH].
+    rewrite (SH _ eq_refl). rewrite (bind_ok _ _ _ _ _ (set_flags_unaffected c _ s)).
+    change (Z.land FLAGS_UNAFFECTED NO_WRITEBACK =? 0) with true. cbv iota.
+    cbn [isa_exec]. unfold read_op, write_op. rewrite K0, K1. rewrite rf_read_mod64 by exact H1. fold r1 sv.
+    pose proof (store_tail_spec c i s Hwf HI Hn K0 Hm (rflags s) sv) as ST. cbv zeta in ST.
+    assert (SS : set_rflags s (rflags s) = s) by (destruct s; reflexivity). rewrite SS in ST.
+    destruct (store (bytes_of 64) (ea i s) sv s) as [s2|]; cbn [opt_done].
+    - rewrite ST. split; reflexivity.
+    - exact ST.
+  Qed.
 End MemDestNoFlags.
 
 (* ---- C08 through guest instructions: what MOV [m], r64 stored is what a load reads back ---- *)
